@@ -34,8 +34,8 @@ C["C16"] = ("parseTagAndLength, parseInt64, parseSignedInt64, parseBool, parseBi
                "ParseField (reflection) is not under contract: the claim is for the primitive parsers that touch the bytes.")
 C["C18"] = ("SendAccountDebitRequest and SendServiceUsageRequest leave the ghost count of live Diameter connections unchanged on every return path (dial, metadata, marshal, write, answer, time-out).",
                "Assumed: DialNetworkTLS opens one connection (with its tasks) or fails, Conn.Close releases it. Watchdog goroutines of go-diameter and the per-subscriber state machines are not modelled.")
-C["C20"] = ("A predicate derived mechanically from the valid:\"...\" struct tags in the current source (required pointers non-nil recursively) is assumed after a successful Config.Validate; under it InitChfContext and both Diameter clients are proved free of nil dereferences; Configuration.validate is proved to reject an unknown service name.",
-               "Assumed: govalidator enforces 'required' on nested structs. Not covered: scheme check (runs inside govalidator via TagMap), the server start-up functions that spawn goroutines (rf/abmf OpenServer, SBI server).")
+C["C20"] = ("A predicate derived mechanically from the valid:\"...\" struct tags in the current source (required pointers non-nil recursively) is assumed after a successful Config.Validate; under it InitChfContext, both Diameter clients and the SBI server start (startServer, with the certificate-path getters) are proved free of nil dereferences; Configuration.validate is proved to reject an unknown service name and the https scheme without a tls section (the one hand-coded presence rule, part of the predicate).",
+               "Assumed: govalidator enforces 'required' on nested structs. Not covered: the scheme check itself (runs inside govalidator via TagMap), the Diameter server start-up functions that spawn goroutines (rf/abmf OpenServer), cgf.")
 
 C["C13"] = ("For any list of enabled services, every route is registered ('route' obligation at each GET/POST/PUT/PATCH/DELETE in applyRoutes/newRouter) on a router group on which the authorisation middleware has already been installed - recognised at the Use call site as a function literal that calls (*RouterAuthorizationCheck).Check on its own gin context; nothing is registered on the engine itself or on a sub-group created before Use. The middleware (Check) answers 401 and aborts the chain for every rejected token and writes nothing otherwise; (*CHFContext).AuthorizationCheck hands the token to oauth.VerifyOAuth and returns its verdict unchanged whenever OAuth2Required is set.",
                "Assumed gin semantics: middleware installed with Use runs before handlers registered afterwards on that group, Group() inherits; Abort stops the chain. Assumed: oauth.VerifyOAuth rejects missing/malformed/wrongly signed tokens; ServerChf.Config() returns the validated configuration. How OAuth2Required follows the NRF's declaration is not under contract.")
